@@ -497,15 +497,16 @@ def random_sets(ctx, rng, nsets, nreads, gene, text, path, genome, label, indelp
                 break
             except Exception as ex:  # noqa: Sample() must not die on any set of alignments
                 noseq = [r for r in reads if not r.seq and r.cigar and not r.flag & 0x100]
+                termdel = [r for r in reads if r.cigar and r.seq and 2 in (r.cigar[0][0], r.cigar[-1][0])]
                 ctx.violation("SampleConstruction", {"site": "indelpost.pileup" if "indelpost" in _tb() else "sam.Sample", "exception": type(ex).__name__,
-                                                     "primary_read_without_sequence": bool(noseq)},
+                                                     "primary_read_without_sequence": bool(noseq), "terminal_deletion": bool(termdel)},
                               {"kind": "random", "label": label, "yaml": text, "genome": genome, "contig_len": contig_len, "indelpost": indelpost,
                                "reads": [dict(r.as_dict(), contig=r.contig) for r in reads], "lo": 0, "hi": 0}, f"{type(ex).__name__}: {ex}")
                 del batch.rows[first:]
-                if attempt == 2 or not noseq:
+                if attempt == 2 or not (noseq or termdel):
                     break
-                # continue with the set minus the reads that have no sequence
-                reads = [r for r in reads if r.seq or not r.cigar]
+                # continue with the set minus the reads that have no sequence / begin or end with a deletion
+                reads = [r for r in reads if (r.seq or not r.cigar) and r not in termdel]
                 ids = batch.add_read_events(reads)
                 batch.rows[first]["fresh"] = True
                 gen_reads.write_bam(bam, gene.chr, contig_len, reads, extra_contigs=[("21", 30000)])
